@@ -341,6 +341,7 @@ func c12Commands(ids []string) []c12cmd {
 		{[]string{"--json", "sequence", id, id2}, "", false, true},
 		{[]string{"--json", "prune", "--yes"}, "", false, true},
 		{[]string{"--json", "plan"}, `{"title":"p","tasks":[{"title":"a"},{"title":"b","after":["a"]}]}`, false, true},
+		{[]string{"--json", "init"}, "", false, false},
 	}
 }
 
@@ -435,6 +436,13 @@ func checkLogFile(content []byte, legacy bool, ids []string) (viol []string, rea
 				completeOnly, _ := LogLines(content)
 				evBefore, err1 := ParseLog([]byte(strings.Join(completeOnly, "\n") + "\n"))
 				evAfter, err2 := ParseLog(ReadLog(dir))
+				if c.readsLog && !hasBad && err1 == nil {
+					// the command read this log, accepted it and reported success: the log must
+					// still be readable afterwards
+					if rr := Run(Cmd{Args: []string{"--json", "list", "--all"}, Dir: dir}); !rr.OK() {
+						bad("`%s` succeeded and left a log that can no longer be read: %s", name, clip(rr.Stderr, 240))
+					}
+				}
 				if err1 == nil && err2 == nil {
 					if len(evAfter) < len(evBefore) {
 						bad("`%s` shrank the history from %d to %d events", name, len(evBefore), len(evAfter))
